@@ -132,6 +132,8 @@ def install(I):
 
     def node_cid(I, args, ins):
         n = args[0].load()
+        if getattr(n, 'cid', None) is not None:
+            return n.cid  # a node decoded from a block keeps the block's CID
         # the CID of a node is a function of its bytes; its string form is what the exporter used as member name
         c = T.app('cidfromstr', T.app('cidstr-of-node', n.data))
         I.add(T.blen(c) >= 1)
@@ -139,6 +141,50 @@ def install(I):
 
     C['github.com/ipfs/go-ipld-cbor.Decode'] = cbor_decode
     C['(*github.com/ipfs/go-ipld-cbor.Node).Cid'] = node_cid
+
+    # the block-based decoding API of the same libraries (documented behaviour: NewBlockWithCid does NOT check that the
+    # bytes hash to the given CID unless the debug flag is set; DecodeBlock keeps the block's CID)
+    def cid_prefix(I, args, ins):
+        pt = I.prog.type_by_str('github.com/ipfs/go-cid.Prefix')
+        if pt is None:
+            raise Inconclusive('cid.Prefix type not in the dump')
+        sv = I.zero(pt)
+        for i, f in enumerate(pt.under().fields):
+            ft = I.prog.types[f['t']]
+            bits, signed = ft.intinfo()
+            sv[i] = I.fresh_bv('cid-prefix-' + f['name'], bits)
+        return sv
+
+    C['(github.com/ipfs/go-cid.Cid).Prefix'] = cid_prefix
+
+    def new_block_with_cid(I, args, ins):
+        data, c = args
+        return (Native('block', data=I.bytes_term(data), cid=c), None)
+
+    def new_block(I, args, ins):
+        t = I.bytes_term(args[0])
+        c = T.app('cidfromstr', T.app('cidstr-of-node', t))
+        I.add(T.blen(c) >= 1)
+        return Native('block', data=t, cid=ipfslog.cid_value(I, c))
+
+    C['github.com/ipfs/go-block-format.NewBlockWithCid'] = new_block_with_cid
+    C['github.com/ipfs/go-block-format.NewBlock'] = new_block
+    M[('block', 'Cid')] = lambda I, a, ins: a[0].cid
+    M[('block', 'RawData')] = lambda I, a, ins: I.bytes_value(a[0].data) if hasattr(I, 'bytes_value') else TermBytes(a[0].data)
+
+    def decode_block(I, args, ins):
+        b = args[0]
+        while isinstance(b, Iface):
+            b = b.v
+        ok = I.fresh_bool('cbor-decodes')
+        if not I.fork_bool(ok, 'cbornode.DecodeBlock'):
+            return (None, mk_error(I, 'cbor: decode error'))
+        nt = I.prog.type_by_str('*github.com/ipfs/go-ipld-cbor.Node')
+        if nt is None:
+            raise Inconclusive('*cbornode.Node type not in the dump')
+        return (Iface(nt.id, Ptr([Native('cbornode', data=b.data, cid=b.cid)], 0)), None)
+
+    C['github.com/ipfs/go-ipld-cbor.DecodeBlock'] = decode_block
 
     def v_coreapi(I, args, ins):
         return Iface(-71, Native('coreapi', added=[], as_iface=True))
